@@ -134,6 +134,7 @@ type batchRec struct {
 
 // World is one concurrent run on one DB.
 type World struct {
+	AlwaysStability bool // every iterator view is re-read and cloned (C04)
 	R       *vcommon.Report
 	Case    int
 	DB      *pebble.DB
@@ -319,16 +320,13 @@ type iterable interface {
 	NewIter(o *pebble.IterOptions) (*pebble.Iterator, error)
 }
 
-// scanView reads a full view through one iterator.
-func (w *World) scanView(what string, src iterable, reverse bool) {
-	t0 := w.clock.Add(1)
-	it, err := src.NewIter(&pebble.IterOptions{KeyTypes: pebble.IterKeyTypePointsAndRanges})
-	if err != nil {
-		w.fail("iter-error", "%s: NewIter: %v", what, err)
-		return
-	}
+// readAll scans the whole iterator in one direction and returns the point
+// tokens, the range-key value per group and a direction-independent signature
+// of everything that was seen (full values).
+func (w *World) readAll(it *pebble.Iterator, reverse bool) (map[string]string, map[int]string, string) {
 	pts := map[string]string{}
 	rks := map[int]string{}
+	var sig []string
 	step := it.Next
 	ok := false
 	if reverse {
@@ -340,21 +338,72 @@ func (w *World) scanView(what string, src iterable, reverse bool) {
 	for ; ok; ok = step() {
 		hp, hr := it.HasPointAndRange()
 		k := string(it.Key())
+		e := k
 		if hp {
 			pts[k] = tokenOf(it.Value())
+			e += "=" + tokenOf(it.Value()) + "/" + strconv.Itoa(len(it.Value()))
 		}
 		if hr {
 			// spans of adjacent groups written by one batch carry the same value
 			// and are defragmented into one span: attribute it to every group covered
-			s, e := it.RangeBounds()
-			for g := int(s[0] - 'a'); g < int(e[0]-'a') && g < w.Groups; g++ {
+			s, en := it.RangeBounds()
+			for g := int(s[0] - 'a'); g < int(en[0]-'a') && g < w.Groups; g++ {
 				for _, rk := range it.RangeKeys() {
 					rks[g] = string(rk.Value)
 				}
 			}
+			for _, rk := range it.RangeKeys() {
+				e += fmt.Sprintf(" [%s,%s)%s=%s", s, en, rk.Suffix, rk.Value)
+			}
 		}
+		sig = append(sig, e)
 	}
+	sort.Strings(sig)
+	return pts, rks, strings.Join(sig, ";")
+}
+
+// scanView reads a full view through one iterator. Every third view is also
+// checked for stability (C04): after the first scan the goroutine lets the
+// committers run, then re-reads the SAME iterator in the other direction and
+// reads a Clone of it; all three must show exactly the same contents, whatever
+// was committed, flushed or compacted in between.
+func (w *World) scanView(what string, src iterable, reverse bool) {
+	t0 := w.clock.Add(1)
+	it, err := src.NewIter(&pebble.IterOptions{KeyTypes: pebble.IterKeyTypePointsAndRanges})
+	if err != nil {
+		w.fail("iter-error", "%s: NewIter: %v", what, err)
+		return
+	}
+	pts, rks, sig := w.readAll(it, reverse)
 	err = it.Error()
+	if err == nil && (t0%3 == 0 || w.AlwaysStability) {
+		for i := 0; i < 4; i++ {
+			runtime.Gosched()
+		}
+		if t0%2 == 0 {
+			time.Sleep(time.Duration(50+t0%400) * time.Microsecond)
+		}
+		_, _, sig2 := w.readAll(it, !reverse)
+		if err = it.Error(); err == nil && sig2 != sig {
+			w.fail("iterator-view-changed", "%s: the same iterator showed different contents on its second scan: first %q, second %q", what, sig, sig2)
+		}
+		if err == nil {
+			cl, cerr := it.Clone(pebble.CloneOptions{})
+			if cerr != nil {
+				err = cerr
+			} else {
+				_, _, sig3 := w.readAll(cl, reverse)
+				err = cl.Error()
+				if cerr := cl.Close(); err == nil {
+					err = cerr
+				}
+				if err == nil && sig3 != sig {
+					w.fail("iterator-view-changed", "%s: a Clone showed different contents than its parent's first scan: parent %q, clone %q", what, sig, sig3)
+				}
+			}
+		}
+		w.count("view-stability-checks")
+	}
 	if cerr := it.Close(); err == nil {
 		err = cerr
 	}
